@@ -70,7 +70,7 @@ func c08GenSpecial(g *Gen) {
 		alpha []byte
 		nmax  int
 	}
-	for _, as := range []alphaSet{{[]byte(">\r\n"), g.Pick(5, 8)}, {[]byte(">a\r\n"), g.Pick(4, 6)}, {[]byte(">\x00\n"), g.Pick(4, 6)}} {
+	for _, as := range []alphaSet{{[]byte(">\r\n"), g.Pick(5, 7)}, {[]byte(">a\r\n"), g.Pick(4, 5)}, {[]byte(">\x00\n"), g.Pick(4, 6)}} {
 		var all [][]byte
 		var enum func(prefix []byte)
 		enum = func(prefix []byte) {
